@@ -558,24 +558,31 @@ func KeyGen(zeta []byte) *Key {
 // ---------------------------------------------------------------- signing with margins and knobs
 
 type Attempt struct {
-	MaxZ, MaxR0, MaxCt0 int64
-	Weight              int
-	Exit                string // "z", "r0", "ct0", "hint", "ok", "knob"
+	MaxZ, MaxR0, MaxCt0  int64
+	ZAtMaxNeg, ZAtMaxPos bool // some coefficient equals -MaxZ / +MaxZ
+	Weight               int
+	// coefficients whose perturbed low part w0 - c*s2 + c*t0 equals -gamma2 exactly (the
+	// MakeHint corner), split by whether the high part w1 is zero
+	CornerW1Zero, CornerW1NonZero int
+	Kappa                         int
+	Exit                          string // "z", "r0", "ct0", "hint", "ok", "knob"
 }
 
 // Knobs make the signer deliberately skip one signing-side test (used to build
 // signatures that satisfy everything except one verifier-side condition).
 type Knobs struct {
-	SkipZ    bool // demand gamma1-beta <= |z|max < gamma1 instead of |z|max < gamma1-beta
-	MaxTries int  // 0 = unlimited
+	SkipZ      bool  // demand gamma1-beta <= |z|max < gamma1 instead of |z|max < gamma1-beta
+	ExactZ     int64 // with SkipZ: demand |z|max == ExactZ (0 = any value in the knob range)
+	StartKappa int   // first attempt number to try (replaying a known witness)
+	MaxTries   int   // 0 = unlimited
 }
 
 func (k *Key) Sign(msg []byte, kn Knobs) (sig []byte, att []Attempt) {
 	A := ExpandA(k.Rho)
 	mu := Shake256(64, k.Tr, msg)
 	rhoPP := Shake256(64, k.Key, mu)
-	for kappa := 0; ; kappa++ {
-		if kn.MaxTries > 0 && kappa >= kn.MaxTries {
+	for kappa := kn.StartKappa; ; kappa++ {
+		if kn.MaxTries > 0 && kappa-kn.StartKappa >= kn.MaxTries {
 			return nil, att
 		}
 		var y [L]Poly
@@ -594,7 +601,7 @@ func (k *Key) Sign(msg []byte, kn Knobs) (sig []byte, att []Attempt) {
 		}
 		ct := Shake256(32, mu, w1b)
 		c := SampleInBall(ct)
-		a := Attempt{}
+		a := Attempt{Kappa: kappa}
 		var z [L]Poly
 		for i := 0; i < L; i++ {
 			m := Mul(&c, &k.S1[i])
@@ -603,12 +610,21 @@ func (k *Key) Sign(msg []byte, kn Knobs) (sig []byte, att []Attempt) {
 				a.MaxZ = v
 			}
 		}
+		for i := 0; i < L; i++ {
+			for n := 0; n < N; n++ {
+				if cz := CMod(z[i][n]); cz == a.MaxZ {
+					a.ZAtMaxPos = true
+				} else if cz == -a.MaxZ {
+					a.ZAtMaxNeg = true
+				}
+			}
+		}
 		if !kn.SkipZ && a.MaxZ >= Gamma1-Beta {
 			a.Exit = "z"
 			att = append(att, a)
 			continue
 		}
-		if kn.SkipZ && (a.MaxZ < Gamma1-Beta || a.MaxZ >= Gamma1) {
+		if kn.SkipZ && (a.MaxZ < Gamma1-Beta || a.MaxZ >= Gamma1 || (kn.ExactZ != 0 && a.MaxZ != kn.ExactZ)) {
 			a.Exit = "knob"
 			att = append(att, a)
 			continue
@@ -649,10 +665,21 @@ func (k *Key) Sign(msg []byte, kn Knobs) (sig []byte, att []Attempt) {
 		var h [K][N]int64
 		for i := 0; i < K; i++ {
 			r := Add(&wcs2[i], &ct0[i])
+			cs2p := Sub(&w[i], &wcs2[i])
 			for n := 0; n < N; n++ {
 				if HighBits(r[n]) != w1[i][n] {
 					h[i][n] = 1
 					a.Weight++
+				}
+				// the corner of the comparison-based MakeHint: perturbed low part exactly -gamma2
+				_, w0 := Decompose(w[i][n])
+				cs2 := CMod(cs2p[n])
+				if w0-cs2+CMod(ct0[i][n]) == -Gamma2 {
+					if w1[i][n] == 0 {
+						a.CornerW1Zero++
+					} else {
+						a.CornerW1NonZero++
+					}
 				}
 			}
 		}
